@@ -467,12 +467,40 @@ def _r125(ctx: Ctx) -> None:
                     ctx.ob('R12.5', site_of(c.module, n), f'{c.name}.{name}: checkpoint only from the trial loop', okc,
                            f'{c.name}.{name} calls save_results outside the trial loop of _run',
                            key=f'{c.name}.{name}|save-site')
-    # _save_results -> _update_file -> save_json(new_data, self._output_file); first save creates the directory
-    uf = ci.methods.get('_update_file')
-    calls = [n for n in ast.walk(uf) if isinstance(n, ast.Call) and ast.unparse(n.func).endswith('save_json')] if uf else []
-    ok = bool(calls) and all(len(c.args) == 2 and ast.unparse(c.args[1]) == 'self._output_file' for c in calls)
-    ctx.ob('R12.5', site_of(mi, uf) if uf else site_of(mi, ci.node), '_update_file writes the combined results to the output file',
-           ok, f'{[ast.unparse(c) for c in calls]}', key='BatchSimulation._update_file|target')
+    # _save_results -> _update_file -> save_json(all results, self._output_file)
+    sr = ci.methods.get('_save_results')
+    ctx.need(sr is not None, 'R12.5', site_of(mi, ci.node), '_save_results not found')
+    saved = []
+
+    class H3(Hooks):
+        def call(self, it, func, args, kwargs, node, env):
+            if isinstance(func, Closure) and getattr(func.fn, 'name', '') == 'save_json':
+                b = dict(zip(('data', 'file'), args))
+                b.update(kwargs)
+                saved.append(b)
+                return None
+            if isinstance(func, BoundMethod) and func.closure.fn.name == 'get_results_to_save' and \
+                    isinstance(func.obj, Obj) and func.obj.label == 'batch':
+                return Tagged('all-results')
+            if isinstance(func, BoundMethod) and func.closure.fn.name == 'save_file':
+                saved.append({'save_file': True})
+                return None
+            if isinstance(func, Ext) and func.name.startswith('os.'):
+                return True if func.name == 'os.path.isfile' else None
+            return NOT_HANDLED
+    it = Interp(m, H3())
+
+    def thunk3():
+        saved.clear()
+        o = Obj(ci, 'batch')
+        o.fields['_output_file'] = 'OUT'
+        it.call_closure(Closure(sr, mi, ci), [], {}, sr, self_obj=o)
+        return list(saved)
+    outs = guard('R12.5', mi, sr)(lambda: it.explore(thunk3))
+    ok = len(outs) == 1 and outs[0].kind == 'return' and [x for x in outs[0].value if 'file' in x] == \
+        [{'data': Tagged('all-results'), 'file': 'OUT'}]
+    ctx.ob('R12.5', site_of(mi, sr), '_save_results writes the results of all simulations to the output file', ok,
+           f'{outs!r}', key='BatchSimulation._update_file|target')
 
 
 def run(ctx: Ctx) -> None:
